@@ -526,6 +526,7 @@ def derivative_is_derivative(ctx, rule="R18.8"):
                     if any(negation_text(c) in conds for c in dconds):
                         continue
                     try:
+                        DA.set_domain(*((0, None) if sign > 0 else (None, 0)))
                         tn = DA.from_ast(e_n, names_n, sign)
                         td = DA.from_ast(e_d, names_d, sign)
                         for s_, v_ in fixed.items():
@@ -618,6 +619,7 @@ def round_trip(ctx, rule="R18.9"):
                 odd_n, odd_d = _odd_form(e_n, pn), _odd_form(e_d, pd)
                 for sign in ((sg_n or sg_d,) if (sg_n or sg_d) else (1, -1)):
                     try:
+                        DA.set_domain(*((0, None) if (sign > 0 or (odd_n is not None and odd_d is not None)) else (None, 0)))
                         if odd_n is not None and odd_d is not None:
                             tn = DA.from_ast(odd_n, {"__t"}, 1)
                             td = DA.from_ast(odd_d, {"__never__"}, 1, subst={"__t": tn})
